@@ -90,8 +90,8 @@ TEXT.update({
     "C14": ("The set of paths the writer touches is pinned by contract: Verus proves rename only between path_spec(rCURRENT) and path_spec(number infix), "
             "open only at path_spec(infix) resp. the stored path (reopen, plus its documented dummy sibling), and Kani (BOUNDED by listing length) that every "
             "remove_file argument is an element of the listing handed to the cleanup, in order.",
-            "That the listing contains only members of the family (read_dir_related_files + filter_files string matching; finding F2) is NOT decided: "
-            "PathBuf/Cow/iterator chains have no usable specs and exceed CBMC; timestamps rename (creation_timestamp_of_currentfile) is an assumed oracle."),
+            "The membership rule of the listing is decided per entry (unit ffilter: both filter closures of filter_files, added late); read_dir_related_files (directory "
+            "iteration, `starts_with` pre-selection, sort) and the iterator chain around the closures are not verified; std::path stem / extension are oracles."),
 })
 
 TEXT.update({
@@ -109,8 +109,9 @@ TEXT_ADD = {
     "C01": " Also proved: the line assembly of the synchronous StateHandle::write (exactly format output + line ending reaches State::write_buffer, the thread-local buffer is empty on every exit path) and the decision of collision_free_infix_for_rotated_file (a rotated file gets the plain name iff neither it, nor its .gz form, nor any .restart-NNNN sibling exists; otherwise a discriminant above every well-formed sibling's).",
     "C02": " FlexiLogger::log is also proved in the `if` direction (token facts: every named registered writer and, when allowed, the default channel are written to); LogSpecBuilder builds exactly its entries (unit specbuilder). Logger::build (second half, copied into a wrapper) sets the facade gate from spec.max_level() of the initial specification; logger and handle share one specification lock.",
     "C04": " LoggerHandle::{flush, shutdown} reach the primary writer and every additional writer (token facts, loop invariants); Drop for LoggerHandle shuts the writers down iff the dropped clone is the last one (after the repair of F9); StdWriter::flush in all three modes. The split of a write mode by Logger::write_mode is proved end to end: WriteMode::{without_flushing, get_flush_interval, effective_write_mode, buffersize} against exact specification functions (unit wmode, with and without the async feature: same buffering and capacities, never a self-flushing mode, the interval goes to the flusher thread), Logger::write_mode stores exactly these two values, Logger::build starts the flusher iff the interval is non-zero.",
-    "C06": " latest_timestamp_file (which file an appending logger with direct timestamp naming continues) is proved against the listing oracle: configured suffix only, newest parseable time stamp, else now (eager iterator shims R16, proved fold lemma); names of rotated files are never reused (unit collide).",
-    "C14": " latest_timestamp_file considers files with the configured suffix only; the cleanup removes listed files only, for every listing length (unit cleanup).",
+    "C06": " The body of the loop of get_highest_index is under contract (unit hindex: the number read from a listed name, running maximum; fold and family-member lemmas), Naming::writes_direct is verified against its specification (it was an assumed contract). latest_timestamp_file (which file an appending logger with direct timestamp naming continues) is proved against the listing oracle: configured suffix only, newest parseable time stamp, else now (eager iterator shims R16, proved fold lemma); names of rotated files are never reused (unit collide).",
+    "C17": "",
+    "C14": " Unit ffilter (added after defect F17): a directory entry counts as a file of the family iff its extension is the configured suffix and its stem is [fixed name part + '_'] + a non-empty rest whose part before the first '.' is an infix the active naming scheme accepts (InfixFilter::filter_infix, unit infix) - for every file name, with a UTF-8 model of byte offsets; two lemmas prove this equal to the pattern of the property statement. The configured symlink is made for exactly (log file, link) after whatever entry was at the link path has been removed (unit symlink). latest_timestamp_file considers files with the configured suffix only; the cleanup removes listed files only, for every listing length (unit cleanup).",
     "C13": " Logger's duplication / target setters change exactly their field; Logger::build constructs the primary writer from the configured duplication levels and writers.",
     "C19": " Logger::build installs exactly the configured error channel; a new Logger's error channel is the variant the source marks #[default] (stderr).",
     "C10": " Start-up: the representation invariant of the Logger builder (the write mode kept for the writers never flushes on its own) is established by the constructor, kept by every setter that touches the file-writer builder and required by Logger::build; under it the `unreachable!` and `assert_eq!` of StdWriter::new are discharged (units wmode, lbuild, primary, stdw).",
@@ -125,7 +126,6 @@ NOT_APPLICABLE = {
     "C03": "quantifier is thread schedules: Kani has no threads, Verus would need its own permission-typed locks instead of std::sync::Mutex/crossbeam/thread_local; mutual exclusion is a typing fact, not a contract",
     "C11": "quantifier is crash points between file-system effects: contracts describe completed calls, effect order is invisible to result oracles, no crash-aware program logic for Rust is installed",
     "C12": "quantifier is schedules of concurrent set_new_spec calls; the sequential contract of set_new_spec is proved under C05",
-    "C17": "parse / Display / toml round trip is str::split/trim/to_lowercase + core::fmt + toml + regex: no Verus specs, CBMC explodes per byte; level_sort/enabled on which it rests are under C02",
 }
 
 TEXT["C20"] = ("Framing only. Verus proves on the code copied from /repo that every path that assembles a line hands exactly `bytes appended by the "
@@ -141,6 +141,18 @@ TEXT["C20"] = ("Framing only. Verus proves on the code copied from /repo that ev
                "NOT decided: fidelity of the provided format functions and JSON validity (core::fmt / serde_json code, an oracle `fmt_bytes` here); the scaffolding around the "
                "copied closure arms (buffer_with, RefCell::try_borrow_mut, thread_local) is not verified; format function and record are opaque values.")
 TEXT["C20"] = (TEXT["C20"][0] + TEXT_ADD["C20"], TEXT["C20"][1])
+TEXT["C17"] = ("Parsing half only. Verus proves on the text of LogSpecification::parse copied from /repo in four pieces (head, body of the loop over the comma-separated "
+               "parts, error arm of the text-filter closure, tail) and on push_err / parse_err / parse_level_filter / contains_whitespace / new_with / off: the input is "
+               "rejected as a whole (error, specification without any entry) iff it has more than two '/'-separated pieces; a part is skipped if empty, adds exactly its "
+               "entry and no error text if it is well-formed by the documented grammar (`level` | `module` | `module=` | `module=level`, level words case-insensitive, "
+               "no white space inside a module name, at most one '='), and adds error text and no entry otherwise; error text is never taken away; the result is Err iff "
+               "error text was collected, and in both cases carries the collected entries as a sorted permutation. lemma_parts proves by induction what the fold of these "
+               "steps over any list of parts yields: error iff some part is malformed, entries exactly those of the well-formed parts in order. Panic freedom of all these "
+               "pieces is part of every obligation (C10).",
+               "NOT decided: the round trip Display / TOML -> parse (core::fmt, toml: no specifications), regex compilation (oracle), from_toml; `split`, `trim`, `to_lowercase`, "
+               "`char::is_whitespace`, `format!` are oracles (a format! with a literal character yields non-empty text: checked by the extractor, rule R32); not verified: the `for` "
+               "statement over the parts and the `filter.and_then(|filter| match Regex::new(filter) ..)` scaffolding between the copied pieces (Verus: no `continue` in for "
+               "loops, no closures capturing `&mut`).")
 PENDING = "not reached yet in the build (units for this property are not registered); see DESIGN.md section 5"
 
 
